@@ -219,7 +219,9 @@ class ArithFunctions(InterpreterFunctions):
         rhs: int
         (lhs, rhs) = args
         assert rhs >= 0
-        return (lhs << rhs,)
+        assert isa(op.result.type, builtin.IndexType | builtin.IntegerType)
+        # bits shifted out of the type are dropped
+        return (to_signed(lhs << rhs, _int_bitwidth(interpreter, op.result.type)),)
 
     @impl(arith.ShRSIOp)
     def run_shrsi(
